@@ -78,7 +78,7 @@ def main():
     d1 = scratch()
     rc, o = sh(f'git apply {patch}', cwd=d1)
     if rc != 0:
-        rc, o = sh(f'patch -p1 < {patch}', cwd=d1)
+        rc, o = sh(f'patch -p1 -F0 < {patch}', cwd=d1)
     result['applies'] = (rc == 0)
     rcb, ob = sh('go build ./...', cwd=d1)
     result['builds'] = (rcb == 0)
